@@ -86,12 +86,18 @@ pub fn run(prop: &str, thorough: bool, seed: u64) {
     }
     match prop {
         "C01" => both!(c01),
-        "C02" => both!(c02),
+        "C02" => {
+            both!(c02);
+            both!(c02_forms);
+        }
         "C04" => both!(c04),
         "C05" => both!(c05),
         "C06" => both!(c06),
         "C07" => both!(c07),
-        "C09" => both!(c09),
+        "C09" => {
+            both!(c09);
+            both!(c09_forms);
+        }
         "C08" => both!(c08),
         "C10" => both!(c10),
         "C12" => both!(c12),
